@@ -93,6 +93,7 @@ type srv struct {
 	share    string          // share prefix or ""
 	public   map[string]bool // patterns that are public by design
 	projNote []string
+	dead     bool // a request with credentials never returned; the instance is abandoned
 	// planted
 	K, F, P, S, C1, C2, W hs.Blob
 	markers               []marker
@@ -251,6 +252,8 @@ type family struct {
 	suffix func(s *srv) string
 	// body for POST (content type, bytes)
 	post func(s *srv) (string, []byte)
+	// noAuthed: never sent with valid credentials (see NOTES.md)
+	noAuthed bool
 }
 
 func form(kv ...string) (string, []byte) {
@@ -292,7 +295,9 @@ var families = []family{
 			return "application/json", []byte(`{"blobref":"` + s.P.Ref.String() + `","depth":1}`)
 		}},
 	{name: "search-recent", suffix: lit("camli/search/recent")},
-	{name: "search-claims", suffix: func(s *srv) string { return "camli/search/claims?permanode=" + s.P.Ref.String() }},
+	// with credentials this one can deadlock the index for good (serveClaims and GetClaims both
+	// take the index read lock; a writer - the sync handler - in between blocks both): NOTES.md
+	{name: "search-claims", suffix: func(s *srv) string { return "camli/search/claims?permanode=" + s.P.Ref.String() }, noAuthed: true},
 	{name: "search-files", suffix: func(s *srv) string { return "camli/search/files?wholedigest=" + s.K.Ref.String() }},
 	{name: "search-ws", suffix: lit("camli/search/ws")},
 	{name: "sig-sign", suffix: lit("camli/sig/sign"), post: func(s *srv) (string, []byte) {
@@ -304,7 +309,7 @@ var families = []family{
 	{name: "sig-discovery", suffix: lit("camli/sig/discovery")},
 	{name: "status-json", suffix: lit("status.json")},
 	{name: "status-path", suffix: lit("status")},
-	{name: "restart", suffix: lit("restart"), post: func(s *srv) (string, []byte) { return form("reindex", "off") }},
+	{name: "restart", suffix: lit("restart"), post: func(s *srv) (string, []byte) { return form("reindex", "off") }, noAuthed: true},
 	{name: "ui-download", suffix: func(s *srv) string { return "download/" + s.F.Ref.String() + "/c17.txt" }},
 	{name: "ui-thumbnail", suffix: func(s *srv) string { return "thumbnail/" + s.F.Ref.String() + "/c17.jpg?mw=32&mh=32" }},
 	{name: "ui-tree", suffix: func(s *srv) string { return "tree/" + s.F.Ref.String() }},
@@ -426,16 +431,35 @@ func (s *srv) send(q areq, timeout time.Duration) (r aresp) {
 		req = req.WithContext(ctx)
 	}
 	_, r.Pattern = s.mux.Handler(req)
-	defer func() {
-		if p := recover(); p != nil {
-			r.Panic = normPanic(p)
-		}
-	}()
-	rec := httptest.NewRecorder()
-	s.mux.ServeHTTP(rec, req)
-	r.Status = rec.Code
-	r.Body = rec.Body.Bytes()
-	return r
+	serve := func() (out aresp) {
+		out.Pattern = r.Pattern
+		defer func() {
+			if p := recover(); p != nil {
+				out.Panic = normPanic(p)
+			}
+		}()
+		rec := httptest.NewRecorder()
+		s.mux.ServeHTTP(rec, req)
+		out.Status = rec.Code
+		out.Body = rec.Body.Bytes()
+		return out
+	}
+	if timeout == 0 {
+		return serve()
+	}
+	// requests that are let in run perkeep's handlers for real; one that never
+	// returns (see NOTES.md: recursive index read lock in search claims) must
+	// not take the whole shard with it
+	done := make(chan aresp, 1)
+	go func() { done <- serve() }()
+	select {
+	case out := <-done:
+		return out
+	case <-time.After(timeout + 5*time.Second):
+		s.dead = true
+		r.Panic = "harness: request did not return"
+		return r
+	}
 }
 
 // put stores a blob with credentials through the server's own HTTP API.
@@ -626,7 +650,6 @@ var essentials = []essential{
 	{"/index/", "enumerate", "GET", contains("the permanode ref", func(s *srv) []byte { return []byte(s.P.Ref.String()) }), "/index/camli/"},
 	{"/my-search/", "search-query", "POST", contains("the permanode ref", func(s *srv) []byte { return []byte(s.P.Ref.String()) }), "/my-search/"},
 	{"/my-search/", "search-describe", "GET", contains("the title marker", func(s *srv) []byte { return s.markers[1].b }), "/my-search/"},
-	{"/my-search/", "search-claims", "GET", contains("a claim ref", func(s *srv) []byte { return []byte(s.C1.Ref.String()) }), "/my-search/"},
 	{"/sighelper/", "sig-discovery", "GET", contains("signHandler", func(s *srv) []byte { return []byte("signHandler") }), "/sighelper/"},
 	{"/sighelper/", "sig-sign", "POST", contains("a signature", func(s *srv) []byte { return []byte("camliSig") }), "/sighelper/"},
 	{"/sighelper/", "sig-verify", "POST", contains("signatureValid", func(s *srv) []byte { return []byte(`"signatureValid": true`) }), "/sighelper/"},
@@ -753,6 +776,9 @@ func runItem(res *vk.Result, name, mode string, only *areq) {
 					if c == credWSWrong && m != "GET" {
 						continue
 					}
+					if fam.name == "restart" && m == "POST" && restartedBy != "" {
+						continue // this process image already is the result of such a restart
+					}
 					q := areq{Method: m, Base: base, Family: fam.name, Cred: c}
 					r := s.send(q, 0)
 					scU.Executions++
@@ -800,6 +826,9 @@ func runItem(res *vk.Result, name, mode string, only *areq) {
 			if !strings.HasSuffix(base, "/") && fam.name != "root" {
 				continue
 			}
+			if fam.noAuthed || s.dead {
+				continue
+			}
 			for _, m := range []string{"GET", "HEAD"} {
 				q := areq{Method: m, Base: base, Family: fam.name, Cred: credRight}
 				t1 := time.Now()
@@ -819,6 +848,10 @@ func runItem(res *vk.Result, name, mode string, only *areq) {
 			}
 		}
 		scA.States++
+	}
+	if s.dead {
+		res.EngineError("auth: %s/%s: a request with credentials never returned; the with-credentials pass of this instance is incomplete", name, mode)
+		return
 	}
 	for _, p := range s.mux.pats {
 		if !served[p] && !s.public[p] && p != "/debug/logs/" {
